@@ -66,6 +66,20 @@ def decision_list(prog, rep):
             oracles[b.id] = table_val(nm) if f["output"].startswith("core::option::Option<") else pred(nm)
 
     class W(OracleWorld):
+        def call(self, m, st, callee, args, term):
+            # a generic `obj: &T` instead of `&dyn Trait`: the callback is an unresolved trait-method call on the
+            # class object — the same callback
+            if not callee.get("resolved") and callee.get("trait") and args:
+                recv = args[0]
+                while isinstance(recv, ip.Ref) and not (isinstance(recv, ip.Opq)):
+                    try:
+                        recv = m.load(st, recv.loc)
+                    except Exception:
+                        break
+                if isinstance(recv, ip.Opq) and recv.kind == "class-object":
+                    return self.virtual_call(m, st, callee, [recv] + list(args[1:]), term)
+            return OracleWorld.call(self, m, st, callee, args, term)
+
         def virtual_call(self, m, st, callee, args, term):
             recv = args[0]
             if not (isinstance(recv, ip.Opq) and recv.kind == "class-object"):
